@@ -4,9 +4,10 @@
    Modelled: templatedata.py TemplateData.wire (Wire.v), renderer.py
    NestedJsonRenderer as a tree of indices (Nested.v), and utils.py
    template_data_nested_json_to_flat_json (Nested.nested_to_flat).
-   The text renderings (flat text, nested text) and their parsers are string
-   formatting; they are exercised on the real code by the differential check
-   (harness/props/C09.py), not modelled: see DESIGN.md. *)
+   The text renderings (flat text, nested text) and their parsers
+   (utils.flat_text_to_flat_json / nested_text_to_flat_json) are modelled in
+   TextFmt.v; their round-trip theorems are appended at the end of this file
+   (Python's repr and ast.literal_eval are universally quantified there). *)
 From PBK Require Import Base Descr Walk Wire Nested WireProofs NestedProofs.
 
 (* 1. the wired tree, read members-in-order with associated fields before their
